@@ -82,6 +82,8 @@ def dump(store, ids):
 
     def walk(s, path):
         ids.append(s)
+        if tuple(s.path_for()) != tuple(path):
+            out.setdefault('!links', []).append(['/'.join(path), list(s.path_for())])
         if isinstance(s.value, Process):
             ids.append(s.value)
             out[path] = [id(s), 'proc', id(s.value)]
@@ -126,7 +128,9 @@ def run_impl(c):
                 steps.append({'err': type(e).__name__ + ':' + str(e)[:160]})
                 break
             after = dump(eng.state, keep)
-            steps.append({'before': {'/'.join(p): v for p, v in before.items()},
+            links = after.pop('!links', None)
+            before.pop('!links', None)
+            steps.append({'links': links, 'before': {'/'.join(p): v for p, v in before.items()},
                           'after': {'/'.join(p): v for p, v in after.items()},
                           'table': sorted('/'.join(p) for p in eng.process_paths)})
             before = after
@@ -139,6 +143,9 @@ def oracle(c, ob, rng):
         what = '_move of %s/%s to %s' % (frm, '/'.join(src), to)
         if 'err' in st:
             return [('%s raised %s' % (what, st['err']), 'nested-move-raised')]
+        if st.get('links'):
+            return [('%s: the upward links of %r do not lead back to the root along their own path (path_for() gives %r)'
+                     % (what, st['links'][0][0], st['links'][0][1]), 'upward-link')]
         b = {tuple(k.split('/')) if k else (): v for k, v in st['before'].items()}
         a = {tuple(k.split('/')) if k else (): v for k, v in st['after'].items()}
         old = (frm,) + tuple(src)
